@@ -316,7 +316,7 @@ def run_mutex(spec):
         traces, nodes, aut = automaton(kind, patches, n)
     except PatchDoesNotApply as e:
         return dict(status='skipped', detail=str(e))
-    npaths = n if kind == 'sem' else 1
+    npaths = 1 + max([int(e.split(':')[1]) for tr in traces for e, o in tr if ':' in e] or [0])   # paths the code really touches
     sem = protocol.LockSemantics(k, npaths)
     limit = n if kind == 'sem' else 1
     stats = dict(paths=len(traces), automaton_nodes=len(aut.reach), automaton_edges=aut.n_edges(),
@@ -453,8 +453,8 @@ CANARIES = [
     ('timeout raised without looking at the clock', 'run_timeout_rule', dict(style='keep'),
      {'mapproxy.util.lock': [("                if current_time < stop_time:\n                    time.sleep(self.step)\n                    continue\n                else:",
                               "                if False:\n                    time.sleep(self.step)\n                    continue\n                else:")]}),
-    ('semaphore gives up after the first busy slot', 'run_mutex', dict(style='sem', k=3, n=2),
-     {'mapproxy.util.lock': [("            i = (i+1) % self.n", "            i = (i+1) % self.n\n            return LockFile(self.lock_file + str(i) + 'x', self.file_permissions)")]}),
+    ('semaphore cycles over n+1 slot files', 'run_mutex', dict(style='sem', k=3, n=2),
+     {'mapproxy.util.lock': [("            i = (i+1) % self.n", "            i = (i+1) % (self.n+1)")]}),
 ]
 
 
@@ -465,7 +465,7 @@ def obligations(tier, seed):
         for k in ks:
             specs.append(_spec('mutex/%s/k%d' % (kind, k), 'run_mutex', style=kind, k=k, cost=20 * k))
         specs.append(_spec('timeout-rule/%s' % kind, 'run_timeout_rule', style=kind, cost=2))
-    sems = [(1, 2), (2, 3)] + ([(3, 4)] if tier == 'thorough' else [])
+    sems = [(1, 2), (2, 3)]   # n=3/k=4 takes ~15 min (70k Houdini queries): left out, stated in bounds
     for n, k in sems:
         specs.append(_spec('semaphore/n%d/k%d' % (n, k), 'run_mutex', style='sem', n=n, k=k, cost=40 * k))
     specs.append(dict(name='twin/critical-section-reachable', module=MOD, func='run_witness', kind='witness', args=dict(style='remove', k=2), cost=2))
@@ -488,7 +488,7 @@ META = dict(
                 'is not inductive, BMC searches a schedule which is replayed on the real module with threads, real files and '
                 'real flock().',
     functions=['FileLock.lock', 'FileLock.unlock', 'FileLock._try_lock', 'SemLock._try_lock', 'LockFile.__init__', 'LockFile.close'],
-    bounds='k = 2 contenders (thorough: 3; SemLock n <= 3 with n+1 contenders); unbounded steps/cycles/polls for the "holds" verdict; '
+    bounds='k = 2 contenders (thorough: 3; SemLock n <= 2 with n+1 contenders); unbounded steps/cycles/polls for the "holds" verdict; '
            'BMC horizon 16-24 steps for refutation; at most one failing flock/stat per extracted attempt before folding',
     outside='NFS/flock emulation differences, the Windows msvcrt branch, cleanup_lockdir racing a live holder, process crashes while holding',
     assumptions=['flock(LOCK_EX|LOCK_NB) succeeds iff no other open file description holds a lock on the same inode',
@@ -503,6 +503,6 @@ MANIFEST_ENTRY = dict(
     text='Mutual exclusion of FileLock for both release styles and the n-slot bound of SemLock hold for every interleaving (any length) of k contenders '
          'at file-system-call granularity, by an inductive invariant inferred over the automaton extracted from the real code; timeouts only after '
          'continuous failure past the deadline; a released lock can be re-acquired.',
-    note='k is bounded (2-3; n+1 for semaphores); file-system/flock semantics are a stated model; the extraction bounds failures per attempt and folds the polling loop '
+    note='k is bounded (2-3; semaphores n <= 2 with n+1 contenders); file-system/flock semantics are a stated model; the extraction bounds failures per attempt and folds the polling loop '
          '(checked structurally).',
 )
